@@ -26,7 +26,8 @@ using verif::Case;
 // the result vector; the registry's 1 GiB rule fires only after ~1.5 GiB have been touched (seconds per failing
 // execution, minutes of shrinking, OOM risk on the shared machine).  With the cap a request above 64 MiB returns null
 // (driver sets allocator_may_return_null=1), alloc_track.h turns that into std::bad_alloc, and a bad_alloc escaping a
-// C09 call is reported as a runaway allocation - no legitimate result here exceeds a few KiB.
+// C09 call is reported as a runaway allocation - no legitimate result here exceeds a few MiB (the largest: the pieces vector of
+// the enumerated 70000-separator text, ~4 MiB; long-layout replacements are bounded to ~4x a <= 48 KB subject).
 extern "C" const char *__asan_default_options() { return "quarantine_size_mb=32:malloc_context_size=4:max_allocation_size_mb=64"; }
 
 const verif::Info verif_info = {
@@ -44,7 +45,22 @@ const verif::Info verif_info = {
     "and length size+k*(|to|-|from|), empty pattern leaves the text whole; const char* arguments are judged cut at their first NUL; "
     "ST::unicode_error is accepted only where DESIGN 3(c) allows it (re-validated result or C string not structurally valid UTF-8). "
     "Termination: verif::budget_exceeded, a request above 64 MiB (bad_alloc) or the CPU-time watchdog. Non-trivial: the pattern occurs "
-    ">= 2 times, or occurrences overlap, or the pattern is empty and the text contains NUL.",
+    ">= 2 times, or occurrences overlap, or the pattern is empty and the text contains NUL. "
+    "EXTENDED - every case additionally: split through const char8_t* on the const subject and on a second, mutable subject object; every "
+    "split overload with all arguments defaulted next to the explicit max_splits; replace through (char8_t*,char8_t*), (ST::string,char8_t*), "
+    "(char8_t*,ST::string) on the mutable subject (the non-const member) and on the const subject (conversion route), each overload with cs "
+    "defaulted and explicit and with validation = check_validity / assume_valid / substitute_invalid (a repaired C string is taken from the "
+    "library's own ST::string(cstr, ST_AUTO_SIZE, substitute_invalid)), the deprecated replace(from,to,cs,validation); tokenize() defaulted "
+    "next to the explicit set; self-referential s.split(s), s.split(s.c_str()), s.replace(s,s), s.replace(s,to), s.replace(from,s), "
+    "s.replace(s.c_str(),s.c_str()), s.tokenize(s.c_str()); join inverts split through an explicit join by hand over the library's pieces. "
+    "Long layout (leading byte 0xE0..0xFD, ~12% of the cases): subjects of 17 bytes..~48 KB with 0..700 planted patterns of 1..300 bytes "
+    "(255/256/257), look-alikes and block-edge placements exactly as in C08 (gen/gen_long89.h); replacements empty / one byte / same length / "
+    "pattern twice / 8-24 bytes / containing the pattern / raw byte / 64 bytes / pattern minus one byte (bounded to 4x the subject); "
+    "max_splits from {default, 0, 1, 2, k-1, k, k+1, k/2, 255, 256, 257, 65535, 65536, 2^32, 2^32+1, 2^63, SIZE_MAX(-j)}; delimiter sets of "
+    "0..40 bytes (33, 40, 17 with the last >= 0x80, lead/continuation bytes, bytes of the subject, random). Enumerated in addition: patterns "
+    "of every length 1..300 x 7 placements x 2 kinds; 70000 separators in one text (all defaults, max 65536); delimiter sets of every size "
+    "0..40 over a text with every byte value; first/last/only occurrence of a 2/3/8/17-byte pattern at every offset around block edges "
+    "(16..16386 from START and END) of a 49157-byte text.",
     true, "exploration"};
 
 namespace {
